@@ -15,6 +15,7 @@ import (
 	"sort"
 	"strings"
 	"sync"
+	"sync/atomic"
 	"time"
 
 	"verifharness/vutil"
@@ -65,6 +66,11 @@ func actorNames(p Prog) []string {
 	return names
 }
 
+var runSeq int64
+
+// nilRuns: off while TLC schedules are replayed (their predicted events carry the ordinary values)
+var nilRuns = true
+
 func runOne(p Prog, strat vsched.Strategy, budget int) ([]Event, vsched.Outcome) {
 	var evs []Event
 	var mu sync.Mutex
@@ -74,6 +80,18 @@ func runOne(p Prog, strat vsched.Strategy, budget int) ([]Event, vsched.Outcome)
 		mu.Unlock()
 	}
 	var c par.Cache
+	// in every third run the function of the smallest key returns nil: a value like any other ("the value that single
+	// invocation returned"), which must not be recomputed either
+	nilKey := ""
+	if nilRuns && atomic.AddInt64(&runSeq, 1)%3 == 0 {
+		for _, ops := range p {
+			for _, o := range ops {
+				if nilKey == "" || o.K < nilKey {
+					nilKey = o.K
+				}
+			}
+		}
+	}
 	actor := func(a string) func() {
 		return func() {
 			for _, o := range p[a] {
@@ -83,6 +101,10 @@ func runOne(p Prog, strat vsched.Strategy, budget int) ([]Event, vsched.Outcome)
 					v := c.Do(k, func() any {
 						log(Event{E: "FStart", A: a, K: k, V: "nil"})
 						vsched.Yield("f")
+						if k == nilKey {
+							log(Event{E: "FEnd", A: a, K: k, V: "nil"})
+							return nil
+						}
 						val := k + ":" + a
 						log(Event{E: "FEnd", A: a, K: k, V: val})
 						return val
@@ -154,6 +176,9 @@ func str(v any) string {
 	return fmt.Sprint(v)
 }
 
+// runs that ended "stalled" (the scheduler gave up: an actor blocked in a primitive the shims do not model)
+var stalledRuns int64
+
 type collector struct {
 	mu    sync.Mutex
 	seen  map[string]*TraceRec
@@ -162,6 +187,10 @@ type collector struct {
 }
 
 func (c *collector) add(mode string, p Prog, evs []Event, out vsched.Outcome) {
+	if out.Status == "stalled" { // harness limit (vsched.Stalled), not an observation
+		atomic.AddInt64(&stalledRuns, 1)
+		return
+	}
 	var sb strings.Builder
 	for _, e := range evs {
 		fmt.Fprintf(&sb, "%s,%s,%s,%s,%v;", e.E, e.A, e.K, e.V, e.B)
@@ -230,6 +259,7 @@ func main() {
 	runs := flag.Int("runs", 2000, "")
 	flag.Parse()
 	res := vutil.NewResult()
+	nilRuns = *mode != "replay"
 	col := &collector{seen: map[string]*TraceRec{}}
 	progs := map[string]Prog{}
 	var progKeys []string
@@ -331,6 +361,10 @@ func main() {
 	}
 	w.Close()
 	res.Count("runs", int64(col.runs))
+	res.Count("stalled_runs", int64(stalledRuns))
+	if vsched.Stalled() {
+		res.Extra["controlled_execution"] = "given up: an actor blocked in a primitive the shims do not model (channel, unredirected lock)"
+	}
 	res.Count("distinct_traces", int64(len(col.order)))
 	res.Write(*out)
 }
